@@ -62,6 +62,10 @@ def inputs(rng, n, quick):
     out.append(('pure-k', [[Q(0, 0, 0, a.w) for a in r] for r in qx.rand_int(rng, n, n, -3, 3)]))
     out.append(('pure-j', [[Q(0, 0, a.w, 0) for a in r] for r in qx.rand_int(rng, n, n, -3, 3)]))
     out.append(('zero', qx.zeros(n, n)))
+    Zc = [r[:] for r in A]; Zc[0][0] = Q(); out.append(('zero-corner', Zc))                       # exact zero in the (0,0) entry (kept by the Hessenberg reduction)
+    Zd = qx.rand_int(rng, n, n, -3, 3)
+    for i in range(n): Zd[i][i] = Q()
+    out.append(('zero-diagonal', Zd))
     return out
 
 def run(ctx):
@@ -118,6 +122,8 @@ def run(ctx):
                         try: Qm, T, dg = call(f, An, mi, tol)
                         except Exception as e: viol(f'C10:raises:{vname}:{cls}', f'{vname} raised {e!r}', inp); continue
                         ev = list(rec['eig']); sched = list(rec['sched']); knife = rec['knife']
+                        if not cm.all_finite(Qm, T):
+                            viol(f'C10:nonfinite:{vname}:{cls}', f'{vname} returned NaN / inf in Q or T after {mi} iteration(s)', inp); continue
                         conv = bool(dg.get('converged')); iters = int(dg.get('iterations_run') or 0)
                         eu = max(fro(mmq(hq(Qm), Qm) - utils.quat_eye(n)), fro(mmq(Qm, hq(Qm)) - utils.quat_eye(n)))
                         es = fro(mmq(mmq(Qm, T), hq(Qm)) - An)
@@ -156,6 +162,7 @@ def run(ctx):
                                 except Exception: stable = False
                             if not stable: ctx.cov['discarded'] += 1
                             else:
+                                if not all(math.isfinite(v) for v in sched) or not all(math.isfinite(v) for e in ev for v in e): ctx.cov['discarded'] += 1; continue
                                 terms.append(f'cmp {n} ({mterm(n, tol, mi, dmat(fl(An)), sched, ev)}) {dmat(fl(Qm))} {dmat(fl(T))} {blit(conv)} {iters}')
                                 term_info.append((vname, cls, tol, mi))
     _A = qx.to_np(qx.rand_int(rng, 3, 3, -3, 3))
@@ -166,7 +173,7 @@ def run(ctx):
         ctx.cov['traces_validated_against_impl'] += len(res)
         bad = [i for i, x in enumerate(res) if not x]
         if bad: ctx.broken.append(f'Schur model and implementation disagree on {len(bad)} of {len(res)} case(s), first: {term_info[bad[0]]} {terms[bad[0]][:300]}; all: {sorted(set(term_info[i][0] for i in bad))}')
-    ctx.cov['rule'] = (f'n = 1..{top}; 13 input classes (generic, Hermitian, triangular, Hessenberg, block-diagonal, lower 2x2 block, normal and Hermitian with prescribed spectra, integer, rank one, pure-k / pure-j, zero); '
+    ctx.cov['rule'] = (f'n = 1..{top}; 15 input classes (generic, zero corner entry, zero diagonal, Hermitian, triangular, Hessenberg, block-diagonal, lower 2x2 block, normal and Hermitian with prescribed spectra, integer, rank one, pure-k / pure-j, zero); '
                        f'{len(V)} variant / shift / window / schedule combinations; tolerances 1e-10 and 0.125; budgets {budgets}: Q unitary, ||Q T Q^H - A|| within the deflation allowance, flag implies triangular T, '
                        'Hermitian + converged implies real diagonal T with the prescribed eigenvalues; model executed at 2^-160 fixed point against runs of 1, 2 and 5 iterations (recorded eigvals / shift schedule). '
                        'Discarded = runs whose decisions change under a 1e-6 relative change of tol or whose answer moves under a 2^-40 relative perturbation of the data or in which a reflector / rotation (or its phase) is built from a vector below 1e-9 of the scale (rounding noise).')
